@@ -1,0 +1,50 @@
+//go:build verif
+
+package plenccodec
+
+import (
+	"sync"
+	"unsafe"
+
+	"github.com/philpearl/plenc/plenccore"
+)
+
+// VerifHooks are the seams used by the deterministic simulator in /verif. They
+// only exist when plenc is built with the "verif" build tag.
+var VerifHooks struct {
+	// PoolGet is called right after a scratch key has been taken from a
+	// sync.Pool. It returns the scratch key to use: got, a recycled one or the
+	// result of fresh(). All of these are legal behaviours of sync.Pool.
+	PoolGet func(pool *sync.Pool, fresh func() unsafe.Pointer, got unsafe.Pointer) unsafe.Pointer
+	// PoolPut is called when a scratch key is handed back to a sync.Pool.
+	PoolPut func(pool *sync.Pool, k unsafe.Pointer)
+}
+
+func verifYield(site string) { plenccore.VerifYield(site) }
+
+// verifAwaitUnlocked is placed on the line before a mutex Lock. Under the
+// simulator exactly one goroutine runs at a time, so it must never block for
+// real: it yields until the lock is free. Without a Yield hook it does nothing.
+func verifAwaitUnlocked(m *sync.Mutex) {
+	h := plenccore.VerifHooks.Yield
+	if h == nil {
+		return
+	}
+	for !m.TryLock() {
+		h("mutex.wait")
+	}
+	m.Unlock()
+}
+
+func verifPoolGet(pool *sync.Pool, fresh func() unsafe.Pointer, got unsafe.Pointer) unsafe.Pointer {
+	if h := VerifHooks.PoolGet; h != nil {
+		return h(pool, fresh, got)
+	}
+	return got
+}
+
+func verifPoolPut(pool *sync.Pool, k unsafe.Pointer) {
+	if h := VerifHooks.PoolPut; h != nil {
+		h(pool, k)
+	}
+}
